@@ -362,6 +362,12 @@ func runC18(c *Ctx) {
 			`"type"`:       func(s string) bool { return strings.HasPrefix(s, "(document.PublicKey).Type(") },
 			`"controller"`: func(s string) bool { return strings.Contains(s, ").ID(") && !strings.Contains(s, "getObjectID") },
 		})
+		// the context of the key's type is looked up for every key (an iteration that skips the lookup leaves a key type
+		// used in the document without its @context entry)
+		c.CheckGuardLoop("C18.P1", "key-context:looked-up-for-every-key", pk, nil, &GCheck{Name: "key-type context found", NoDescend: true, MatchOK: func(c *Ctx, v ssa.Value, env Env) bool {
+			lk, ok := v.(*ssa.Lookup)
+			return ok && strings.HasSuffix(c.Path(lk.X, env), ".keyCtx") && strings.Contains(c.Path(lk.Index, env), ").Type(")
+		}})
 		// exactly one append of the method per iteration, unconditionally after the context lookup
 		c.oneAppendPerIteration("C18.P1", "verification-method:one-append-per-key", pk, "[]document.PublicKey")
 		// key material table
@@ -650,6 +656,56 @@ func (c *Ctx) metadataMapping(pMeta string) {
 	}
 	sort.Strings(missing)
 	c.Check("C18.P2", "metadata:all-members-present", len(missing) == 0, cdm.Pos(), fmt.Sprintf("metadata members not produced: %v", missing))
+	// each member is reported whenever its own source says so: the conditions under which a member is stored mention only
+	// that member's source (and the documented extras) — e.g. the deactivated flag does not depend on `published`
+	allowedConds := map[string][]string{
+		"published":             {},
+		"recoveryCommitment":    {"RecoveryCommitment"},
+		"updateCommitment":      {"UpdateCommitment"},
+		"anchorOrigin":          {"AnchorOrigin"},
+		"unpublishedOperations": {"includeUnpublishedOperations", "UnpublishedOperations"},
+		"publishedOperations":   {"includePublishedOperations", "PublishedOperations"},
+		"method":                {},
+		"deactivated":           {"Deactivated"},
+		"canonicalId":           {`["canonicalId"]`},
+		"equivalentId":          {`["equivalentId"]`},
+		"created":               {`["published"]`},
+		"versionId":             {"VersionID"},
+		"updated":               {"VersionID", "UpdatedTime"},
+	}
+	entryGuard := func(cnd string) bool {
+		return strings.HasPrefix(cnd, "($1 ") || strings.HasPrefix(cnd, "($1.Doc ") || strings.HasPrefix(cnd, "($2 ") || cnd == `$2["published"]#1=true`
+	}
+	forEachInstr(cdm, func(in ssa.Instruction) {
+		mu, ok := in.(*ssa.MapUpdate)
+		if !ok {
+			return
+		}
+		if _, isK := mu.Key.(*ssa.Const); !isK {
+			return
+		}
+		key := unquote(c.Path(mu.Key, nil))
+		allow, known := allowedConds[key]
+		if !known {
+			return
+		}
+		var foreign []string
+		for _, cnd := range c.condsOf(mu.Block()) {
+			if entryGuard(cnd) {
+				continue
+			}
+			okC := false
+			for _, a := range allow {
+				if strings.Contains(cnd, a) {
+					okC = true
+				}
+			}
+			if !okC {
+				foreign = append(foreign, cnd)
+			}
+		}
+		c.Check("C18.P2", "metadata:"+key+":conditions", len(foreign) == 0, mu.Pos(), fmt.Sprintf("member %q is stored under conditions on its own source only (foreign conditions: %v)", key, foreign))
+	})
 	// created only when published
 	evCreated := func(in ssa.Instruction) bool {
 		mu, ok := in.(*ssa.MapUpdate)
@@ -699,7 +755,7 @@ func (c *Ctx) metadataMapping(pMeta string) {
 		})
 		c.Check("C18.P2", "published:dedup-by-canonical-reference", dd, f.Pos(), "published operations are de-duplicated by CanonicalReference")
 	}
-	c.Min("C18.P2", 13+13)
+	c.Min("C18.P2", 13+13+13)
 }
 
 var _ = token.ADD
